@@ -135,6 +135,13 @@ class Summaries:
                     return Agg("adt", CFLOW, 0, [fs[0]])
                 return Agg("adt", CFLOW, 1, [Agg("adt", OPTION, 0, [])])
             return [(st, self.map_enum(ctx, st, v, g))]
+        if sty["def"] == CFLOW:
+            # ControlFlow<B, C>: Continue(c) -> Continue(c), Break(b) -> Break(Break(b))
+            def h(var, fs):
+                if var == 0:
+                    return Agg("adt", CFLOW, 0, [fs[0]])
+                return Agg("adt", CFLOW, 1, [Agg("adt", CFLOW, 1, [fs[0]])])
+            return [(st, self.map_enum(ctx, st, v, h))]
         return None
 
     def s_from_residual(self, ctx, st):
@@ -153,6 +160,10 @@ class Summaries:
             return [(st, self.map_enum(ctx, st, v, f))]
         if sty.get("k") == "adt" and sty["def"] == OPTION:
             return [(st, Agg("adt", OPTION, 0, []))]
+        if sty.get("k") == "adt" and sty["def"] == CFLOW:
+            def k_(var, fs):
+                return Agg("adt", CFLOW, 1, [fs[0]], ctx.ex.normalize(sty))
+            return [(st, self.map_enum(ctx, st, v, k_))]
         return None
 
     def s_map_err(self, ctx, st):
@@ -1155,7 +1166,7 @@ class Summaries:
         return None
 
     def s_iter_consumer(self, ctx, st):
-        """core::iter::traits::iterator::Iterator::try_for_each | core::iter::traits::iterator::Iterator::for_each | core::iter::traits::iterator::Iterator::any | core::iter::traits::iterator::Iterator::all | core::iter::traits::iterator::Iterator::fold"""
+        """core::iter::traits::iterator::Iterator::try_for_each | core::iter::traits::iterator::Iterator::for_each | core::iter::traits::iterator::Iterator::any | core::iter::traits::iterator::Iterator::all | core::iter::traits::iterator::Iterator::fold | core::iter::traits::iterator::Iterator::try_fold"""
         if ctx.r["kind"] == "body":
             return None
         ex = ctx.ex
@@ -1175,6 +1186,8 @@ class Summaries:
             return [(st, Agg("adt", RESULT, 0, [ctx.args[0]], ctx.ex.normalize(sty)))]
         if sty["def"] == OPTION:
             return [(st, Agg("adt", OPTION, 1, [ctx.args[0]], ctx.ex.normalize(sty)))]
+        if sty["def"] == CFLOW:
+            return [(st, Agg("adt", CFLOW, 0, [ctx.args[0]], ctx.ex.normalize(sty)))]
         return None
 
     def closure_runs_pure(self, ctx, st, cl):
